@@ -144,6 +144,7 @@ type entryReport struct {
 	CrossChecked int            `json:"paths_cross_validated_natively"`
 	SkippedGo    []string       `json:"go_statements_not_executed,omitempty"`
 	Stubs        []string       `json:"stubs_used,omitempty"`
+	ForeignGlobals []string     `json:"foreign_globals_read_uninitialised,omitempty"`
 }
 
 func runCheck(id, tier, filter string) int {
@@ -257,7 +258,7 @@ func runCheck(id, tier, filter string) int {
 				Discharged: res.Discharged, Trivial: res.Trivial, Unknown: res.Unknown, UnknownBr: res.UnknownBranch,
 				Queries: res.Queries, SolverS: res.SolverTime.Seconds(), WallS: res.Wall.Seconds(), Reached: res.Reached,
 				AssertSites: res.AssertSites, Aborted: res.Aborted, AbortMsgs: res.AbortMsgs, Violations: len(res.Violations),
-				SkippedGo: res.SkippedGo, Stubs: res.StubsUsed,
+				SkippedGo: res.SkippedGo, Stubs: res.StubsUsed, ForeignGlobals: res.ForeignGlobals,
 			}
 			fmt.Printf("[%s] %s: paths=%d infeasible=%d obligations=%d(+%d by normalisation) discharged=%d unknown=%d violations=%d queries=%d solver=%.1fs wall=%.1fs\n",
 				id, e.Name, res.Paths, res.Infeasible, res.Obligations, res.Trivial, res.Discharged, res.Unknown, len(res.Violations), res.Queries, res.SolverTime.Seconds(), res.Wall.Seconds())
